@@ -334,6 +334,54 @@ func runC15(e *core.Env) error {
 			}
 		}
 		e.Add(core.Case{Impl: verdict, Spec: "rejected", Key: fmt.Sprintf("c15 source-name-only-sources-in-file %d", hi), Nontrivial: true, Tags: []string{"source-name", "file-without-integrations"}})
+		// the name inside an integration's source REFERENCE (it is only a look-up key into the declared sources;
+		// here the reference even carries a url of its own): refused, or never part of any SQL text
+		for _, entry := range []string{"file", "dashboard"} {
+			igs := c15BaseIntegrations()
+			ig := igs[1]
+			ig.Sources = []config.Source{{Name: mark + hostile[hi], ChainID: 7, URLs: []string{"http://127.0.0.1:1"}, Start: 1}}
+			root3 := config.Root{Sources: []config.Source{{Name: "src1", ChainID: 7, URLs: []string{"http://127.0.0.1:1"}}}, Integrations: []config.Integration{ig}}
+			var verr error
+			if entry == "file" {
+				verr = config.ValidateFix(&root3)
+			} else {
+				verr = config.CheckUserInput(root3)
+			}
+			verdict = "rejected"
+			if verr == nil {
+				pg := fakepg.New()
+				url, _ := pg.Start()
+				pool, perr := pgxpool.New(context.Background(), url)
+				if perr == nil {
+					conf3 := root3
+					if entry == "dashboard" {
+						cj, _ := json.Marshal(ig)
+						pg.InsertRow("shovel.integrations", map[string]fakepg.Value{"name": ig.Name, "conf": fakepg.JSON(string(cj))})
+						conf3 = config.Root{Sources: root3.Sources}
+					}
+					_, lerr := shovel.VerifLoadTasks(context.Background(), pool, conf3)
+					sink := &sqlSink{}
+					for _, ev := range pg.Log() {
+						sink.add(ev.SQL)
+					}
+					switch {
+					case sink.leak() != "":
+						verdict = "MARKER IN SQL TEXT: " + trunc2(sink.leak())
+					case lerr != nil:
+						verdict = "rejected"
+					default:
+						verdict = "accepted, marker never in SQL text"
+					}
+					go pool.Close()
+				}
+				pg.Close()
+			}
+			spec := verdict
+			if strings.HasPrefix(verdict, "MARKER") {
+				spec = "rejected, or marker never in SQL text"
+			}
+			e.Add(core.Case{Impl: verdict, Spec: spec, Key: fmt.Sprintf("c15 source-reference-name %s %d", entry, hi), Nontrivial: true, Tags: []string{"source-reference-name", "entry=" + entry}})
+		}
 	}
 	// the real dashboard handlers must reject hostile identifiers before storing anything
 	{
